@@ -848,8 +848,32 @@ def rule_l(ctx):
          f'after rebind({{i: MISSING_VALUE}}, skip_notification=True) the list still holds MISSING_VALUE')
 
 
+def rule_m(ctx):
+  """A refused growth changes nothing - the offered value included: in the List primitive
+  no size refusal (`raise ... max size`) is reachable after `_formalized_value`, which
+  adopts the value as a child (sets its parent and path).  A rejected `pg.Insertion(y)`
+  left `y.sym_parent is l`, so later changes of `y` were reported to a list that does not
+  hold it."""
+  idx = ctx.index
+  f = idx.lookup_method(S.LIST, S.PRIMITIVE)
+  g = C.cfg_of(f.node)
+  adopt = [k for k in g.nodes if k.ast is not None and any((A.call_name(c) or '').endswith('_formalized_value') for c in k.calls())]
+  refuse = [k for k in g.nodes if k.kind == 'raisestmt' and 'max size' in A.unparse(k.ast, 300)]
+  if not adopt or not refuse:
+    raise AnalysisError('List primitive: adoption / max-size refusal not found')
+  bad = []
+  for a in adopt:
+    seen, _ = g.reach(a, follow_exc=False)
+    bad += [r.lineno for r in refuse if r.id in seen]
+  ctx.ob('C03.m', f'{f.fq}#refuse-before-adopt', not bad,
+         'the max-size refusal is decided before the value is adopted as a child', f.loc,
+         f'the refusal at line {sorted(set(bad))} comes after _formalized_value: a rejected insertion leaves the value '
+         f'parented to the list (y.sym_parent is l although l does not hold y)')
+
+
 def run(ctx):
   ctx.consult(*FILES)
+  rule_m(ctx)
   rule_f(ctx)
   rule_a(ctx)
   rule_b(ctx)
